@@ -153,6 +153,23 @@ def addListH (h : Heap) (c : Addr) (name : String) : Option (Heap × Addr) :=
 
 /-! ## AddValueAt / RemoveAt -/
 
+/-- the NEW containers `ancestorOf(path, true)` creates for the remaining components once the walk
+    has left the existing document (every further `Child` finds nothing in a new, empty
+    container), with `v` stored under the last one: the node to attach for the components `segs`.
+    The Go code creates them top-down, each attached before it is filled; nobody observes the
+    intermediate states, so — as everywhere in Heap.lean — a cell is allocated once its content
+    is known (deepest first). -/
+def spineH : Heap → List String → Addr → Heap × Addr
+  | h, [], v => (h, v)
+  | h, p :: rest, v =>
+    let (h1, r) := spineH h rest v
+    let (b, is) := parseSeg p
+    match is with
+    | [] => h1.alloc (.cont [(p, r)])                 -- &containerBuilderImpl{}; children[p] = r
+    | _ =>
+      let (h2, r2) := setSlotH h1 none is r            -- ensureList in an empty container: new lists
+      h2.alloc (.cont [(b, r2)])
+
 /-- `ancestorOf(path, true)` followed by `AddValue(last, v)`, on the component list -/
 def addAtSegsH : Heap → Addr → List String → Addr → Option Heap
   | h, _, [], _ => some h
@@ -160,10 +177,9 @@ def addAtSegsH : Heap → Addr → List String → Addr → Option Heap
   | h, c, p :: rest, v =>
     match contChildH h c p with
     | some x => addAtSegsH h x rest v                 -- existing container: entered, not written
-    | none =>
-      match addContainerH h c p with                  -- addChild: a new container replaces what is there
-      | some (h1, b) => addAtSegsH h1 b rest v
-      | none => none
+    | none =>                                         -- addChild: new containers replace what is there
+      let (h1, r) := spineH h rest v
+      addH h1 c p r
 
 /-- `c.AddValueAt(path, v)` -/
 def addValueAtH (h : Heap) (c : Addr) (path : String) (v : Addr) : Option Heap :=
